@@ -9,6 +9,9 @@ The source code is distributed under BSD license, see the file License.txt
 at the top-level directory.
 */
 #include "slu_mt_ddefs.h"
+#ifdef SLU_MT_VERIF
+#include "slu_mt_verif.h"
+#endif /* SLU_MT_VERIF */
 
 
 void
@@ -93,6 +96,9 @@ pxgstrf_super_bnd_dfs(
 		  marker[invp_rep] = found;
 		  parent[krep] = EMPTY;
 		  if ( ispruned[krep] ) {
+#ifdef SLU_MT_VERIF
+		    SLUV_TSAN_ACQUIRE(&ispruned[krep]);
+#endif /* SLU_MT_VERIF */
 		      if ( SINGLETON( supno[krep] ) )
 			  xdfs = xlsub_end[krep];
 		      else xdfs = xlsub[krep];
@@ -132,6 +138,9 @@ pxgstrf_super_bnd_dfs(
 				      xdfs = xlsub[krep];     
 				      maxdfs = xprune[krep];
 				      if ( ispruned[krep] ) {
+#ifdef SLU_MT_VERIF
+		    SLUV_TSAN_ACQUIRE(&ispruned[krep]);
+#endif /* SLU_MT_VERIF */
 					  if ( SINGLETON( supno[krep] ) )
 					      xdfs = xlsub_end[krep];
 					  else xdfs = xlsub[krep];
